@@ -191,6 +191,12 @@ impl<T> VxIter<T> {
     { unimplemented!() }
 }
 
+/// `v.iter()` on a Vec, as an eager iterator (used through an explicit substitution, listed in the evidence)
+#[verifier::external_body]
+pub fn vx_vec_iter<T>(v: &Vec<T>) -> (r: VxIter<&T>)
+    ensures derefs(r.seq()) == v@, r.seq().len() == v@.len(), forall|i: int| #![trigger r.seq()[i]] #![trigger v@[i]] 0 <= i < v@.len() ==> *(r.seq()[i]) == v@[i],
+{ unimplemented!() }
+
 impl<'a> VxIter<&'a String> {
     #[verifier::external_body]
     pub fn cloned(self) -> (r: VxIter<String>)
